@@ -334,6 +334,13 @@ def caf_variants(b, rng):
     v.append(("two-unknown", b[:fp] + unk + b"wxyz" + be(8, 0) + b[fp:]))
     v.append(("kuki-before-data", b[:dp] + b"kuki" + be(8, 3) + b"abc" + b[dp:]))
     v.append(("free-zero", b[:fp] + b"free" + be(8, 0) + b[fp:]))
+    v.append(("info-chunk", b[:fp] + b"info" + be(8, 12) + be(4, 1) + b"title\0x\0" + b[fp:]))
+    v.append(("info-size-4", b[:fp] + b"info" + be(8, 4) + be(4, 0) + b[fp:]))
+    v.append(("info-size-3", b[:fp] + b"info" + be(8, 3) + b"abc" + b[fp:]))
+    v.append(("info-too-long", b[:fp] + b"info" + be(8, len(b)) + be(4, 1) + b[fp:]))
+    v.append(("chan-chunk", b[:fp] + b"chan" + be(8, 12) + be(4, 0x650002) + be(4, 0) + be(4, 0) + b[fp:]))
+    v.append(("chan-long", b[:fp] + b"chan" + be(8, 20) + be(4, 0x640001) + bytes(16) + b[fp:]))
+    v.append(("chan-short", b[:fp] + b"chan" + be(8, 5) + bytes(5) + b[fp:]))
     v.append(("big-unknown", b[:dp] + b"abcd" + be(8, 30000) + bytes(30000) + b[dp:]))
     v.append(("channels-0", b[:44] + be(4, 0) + b[48:]))
     v.append(("channels-1025", b[:44] + be(4, 1025) + b[48:]))
@@ -591,18 +598,71 @@ def stream_sessions(ctx, fmts, st):
     return problems
 
 
+
+# ---------------- CAF files carrying strings and a channel map ----------------
+
+def stream_meta(ctx, fmts, st):
+    """library-written CAF files with an 'info' chunk (strings set before the audio) and a 'chan' chunk: the walker must get through them"""
+    rng = ctx.rng
+    cafs = [f for f in fmts if f.major == CAF]
+    if ctx.tier == "quick":
+        cafs = cafs[::3]
+    scripts, plan = [], {}
+    for i, f in enumerate(cafs):
+        for (ch, cmap) in ((1, "01000000"), (2, "0200000003000000")):
+            c = Case(f, ch, rng.choice([8000, 44100, 2 ** 31 - 1]), rng.choice([0, 1, 3]))
+            vals = gen_values(rng, c.ty, c.n * c.ch)
+            L = [open_w(c)]
+            for (ty, text) in ((1, b"a title"), (3, b"sw"), (4, bytes(rng.randrange(97, 123) for _ in range(rng.randrange(1, 40))))):
+                if rng.random() < 0.8:
+                    L.append("setstr h0 %d %s" % (ty, text.hex()))
+            if rng.random() < 0.8:
+                L.append("cmd h0 1101 %d %s" % (len(cmap) // 2, cmap))
+            if c.n:
+                L.append("w h0 %s f %d %s" % (c.ty, c.n, hex_items(vals, c.ty)))
+            L += ["close h0", "dump s0", OPEN_R % 0, "close h1"]
+            name = "M%d_%d" % (i, ch)
+            scripts.append((name, "\n".join(L) + "\n"))
+            plan[name] = c
+    res = ctx.batch(scripts, workers=WORKERS, clean=True)
+    problems, good = [], []
+    for name, text in scripts:
+        lines = res.get(name, [])
+        dumps = [l for l in lines if l.startswith("len=")]
+        opens = [l for l in lines if l.startswith("open=")]
+        if not dumps or len(opens) < 2 or any(l.startswith(("CRASH", "ABORT", "TIMEOUT")) for l in lines):
+            problems.append(("crash", name, "the library died or refused: %s" % lines[-2:], text))
+            continue
+        good.append((name, dump_bytes(dumps[0]), opens[1], text))
+    if good:
+        out = ctx.run_model(["caf", "parse"], "".join(b.hex() + "\n" for (_, b, _, _) in good)).split("\n")
+        for (name, b, o2, text), l in zip(good, out):
+            c = plan[name]
+            st["meta_files"] += 1
+            re_, mp = parse_open(o2), parse_model(l)
+            want = ("ok", c.expect_word(), c.ch, c.sr, c.n)
+            if re_ != want:
+                problems.append(("reopen", name, "re-open reports %s, written: fmt=%08x ch=%d sr=%d frames=%d" % (o2.strip(), want[1], c.ch, c.sr, c.n),
+                                 text.replace("close h1\n", ""), "open=ok err=0 ch=%d sr=%d frames=%d fmt=%08x" % (c.ch, c.sr, c.n, want[1])))
+            elif mp[0] == "unmodelled":
+                st["meta_unmodelled"] += 1
+            elif mp[:5] != re_[:5]:
+                problems.append(("corr-parse", name, "file with strings / channel map: library %s, model %s" % (o2.strip(), mp), text))
+    return problems
+
 # ---------------- entry ----------------
 
 def campaign(ctx):
     """returns True when a violation was reported"""
     import time
     t0 = time.time()
-    st = {"files": 0, "hdr_bytes": 0, "parsed": 0, "unmodelled_own": 0, "unmodelled": 0, "variants": 0, "variants_ok": 0, "sessions": 0, "snapshots": 0}
+    st = {"files": 0, "hdr_bytes": 0, "parsed": 0, "unmodelled_own": 0, "unmodelled": 0, "variants": 0, "variants_ok": 0, "sessions": 0, "snapshots": 0, "meta_files": 0, "meta_unmodelled": 0}
     fmts = formats(ctx)
     cases = header_cases(ctx, fmts)
     problems, files, meta = stream_headers(ctx, cases, st)
     problems += stream_parser(ctx, files, meta, st)
     problems += stream_sessions(ctx, fmts, st)
+    problems += stream_meta(ctx, fmts, st)
     st["formats"] = len(fmts)
     st["wall_s"] = round(time.time() - t0, 1)
     ctx.notes["cafw64"] = st
